@@ -20,7 +20,7 @@ PROPERTY = {
     'outside': ['deleting list over a list whose elements have different priorities', 'type change at the focus while older entries are protected',
                 'value-less !del of a key that does not exist', 'lists nested below a !merge node (recursion of the mode is not stated)'],
     'per_split_timeout': {'quick': 600, 'thorough': 1800},
-    'wall_budget': {'quick': 900, 'thorough': 3400},
+    'wall_budget': {'quick': 1500, 'thorough': 7000},
 }
 
 PREFIXES = [[], ['w'], ['x'], ['w', 'x']]
